@@ -507,6 +507,8 @@ type c04Cfg struct {
 	// Hold: the fault is held back until quiescence: a fault hook blocks where it would fail, a
 	// cancellation / endpoint failure is postponed; at the first quiescence it is released.
 	Hold bool
+	// Progress: Send and Receive get progress callbacks with an overlap / ordering detector
+	Progress bool
 	// SumGate: which files' digest computation (hash.Sum) is gated until their notification
 	SumGate func(path string) bool
 	// Transport 1: util.NewProtoStream over net.Pipe instead of the in-memory channel stream
@@ -528,6 +530,8 @@ type c04Res struct {
 	Quiesced         bool
 	HeldReleased     bool
 	FinS, FinR       bool // a FIN packet was delivered to Send's / Receive's RecvMsg
+	ProgOverlap      int32 // times a progress callback was entered while another call of it was running
+	ProgOOO          int32 // times a progress callback reported a smaller total than an earlier call
 	SumReleased      int
 	Fired            bool
 	Leaks            int
@@ -827,9 +831,30 @@ func c04Run(cfg c04Cfg) (res c04Res) {
 			return nil
 		},
 	}
+	var sendProgress func(int, bool)
+	if cfg.Progress {
+		mk := func() func(int, bool) {
+			var in int32
+			var last int64
+			return func(total int, _ bool) {
+				if atomic.AddInt32(&in, 1) > 1 {
+					atomic.AddInt32(&res.ProgOverlap, 1)
+				}
+				if prev := atomic.SwapInt64(&last, int64(total)); int64(total) < prev {
+					atomic.AddInt32(&res.ProgOOO, 1)
+				}
+				if cfg.Perturb != nil {
+					cfg.Perturb()
+				}
+				atomic.AddInt32(&in, -1)
+			}
+		}
+		sendProgress = mk()
+		opt.ProgressCb = mk()
+	}
 	sdone := make(chan error, 1)
 	rdone := make(chan error, 1)
-	go c04Call(sdone, func() error { return fsutil.Send(ctxS, pair.E[0], mem, nil) })
+	go c04Call(sdone, func() error { return fsutil.Send(ctxS, pair.E[0], mem, sendProgress) })
 	go c04Call(rdone, func() error { return fsutil.Receive(ctxR, pair.E[1], cfg.Dest, opt) })
 
 	res.Send, res.Recv = 2, 2
@@ -1078,6 +1103,7 @@ var c04Stats = map[string]int{}
 //	consumed b packets (its operations fail, its context is cancelled; the survivor reads what was already
 //	sent and then io.EOF); a&2: the survivor's later writes are dropped silently (else they fail)
 //	optional 8th field transport: 1 = util.NewProtoStream over net.Pipe instead of the in-memory stream
+//	optional 9th field: != 0 = the source Opens are held until the sender's listing is complete
 //
 // output: (send recv hung leaks false_success (differing paths) followup err_from_sender err_from_receiver fired bigfan
 //
@@ -1113,6 +1139,9 @@ func run0401(in Sx) (out Sx) {
 	}
 	if len(in.L) > 7 {
 		cfg.Transport = in.L[7].Int()
+	}
+	if len(in.L) > 8 {
+		cfg.OpenGate = in.L[8].IsTrue()
 	}
 	if len(in.L) > 6 && in.L[6].IsTrue() {
 		cfg.SrcDir = filepath.Join(work, "src")
@@ -1391,6 +1420,22 @@ func genC04(g *Gen) {
 		}
 		emit(c04CaseT(view, prior, kind, a, b, 0, Pick(r, []int{0, 1, 8, 64}), chunk, srckind, transport), cls)
 	}
+	// (d) fault-free transfers of many files whose data lags far behind the listing (source Opens
+	// held until the listing is complete, bounded stream): they must complete
+	for i, nd := 0, g.Vol(2, 40); i < nd; i++ {
+		nf := 300 + r.Intn(500)
+		var view, prior []*MNode
+		for k := 0; k < nf; k++ {
+			f := c04File(fmt.Sprintf("f%04d", k), r.Intn(4), r.U64(), c04Mt+int64(k))
+			view = append(view, f)
+			if r.Chance(10) {
+				prior = append(prior, c04Clone(f))
+			}
+		}
+		in := L(ViewSx(view), ViewSx(prior), L(NI(c04FNone), NI(0), NI(0)), NI(0), Pick(r, []Sx{NI(0), NI(1), NI(8), NI(64)}), NI(1+r.Intn(3)), NI(0), NI(0), NI(1))
+		out := run0401(in)
+		g.EmitWith(0x0401, in, out, true, "fault-free-many-files-opens-held")
+	}
 	// (c) long listings: the entries that follow a synchronously handled entry pile up in the
 	// receiver's walker channel (128) and diff channel (128) while the diff is held on that entry
 	// (listing sizes across the thresholds); the fault is released when everything is parked
@@ -1501,7 +1546,11 @@ func c08Digest(dest string) string {
 // callback; the stream scribbles over every DATA payload buffer when the next RecvMsg starts.
 // output: ((send recv dest_equals_view digest (req ids ascending) ((kind path digest_ok) ...)
 //
-//	ov_sender_send ov_sender_recv ov_receiver_send ov_receiver_recv scribbled>0 leaks) ...)
+//	ov_sender_send ov_sender_recv ov_receiver_send ov_receiver_recv scribbled>0 leaks
+//	progress_overlaps progress_out_of_order) ...)
+//
+// Send and Receive are given progress callbacks that count overlapping invocations and totals
+// that go backwards.
 func run0801(in Sx) (out Sx) {
 	defer func() {
 		if r := recover(); r != nil {
@@ -1569,7 +1618,7 @@ func run0801(in Sx) (out Sx) {
 		}
 		// every fourth schedule: the source Opens are held until the sender's listing is complete
 		// (the walker runs ahead of the data, bounded stream)
-		res := c04Run(c04Cfg{View: view, Dest: dest, Cap: capacity, Chunk: chunk, Scribble: true, Perturb: perturb, Stall: -1, SumGate: sumGate, OpenGate: s%4 == 2})
+		res := c04Run(c04Cfg{View: view, Dest: dest, Cap: capacity, Chunk: chunk, Scribble: true, Perturb: perturb, Stall: -1, SumGate: sumGate, OpenGate: s%4 == 2, Progress: true})
 		eq := !res.Hung && len(c04DestDiff(view, dest)) == 0
 		dg := ""
 		if !res.Hung {
@@ -1592,7 +1641,7 @@ func run0801(in Sx) (out Sx) {
 		}
 		recs = append(recs, L(NI(res.Send), NI(res.Recv), Bool(eq), S(dg), L(idsx...), L(ns...),
 			N(uint64(res.Ov[0])), N(uint64(res.Ov[1])), N(uint64(res.Ov[2])), N(uint64(res.Ov[3])),
-			Bool(res.Scribbled > 0), NI(res.Leaks)))
+			Bool(res.Scribbled > 0), NI(res.Leaks), N(uint64(res.ProgOverlap)), N(uint64(res.ProgOOO))))
 		os.RemoveAll(work)
 	}
 	return L(recs...)
